@@ -14,30 +14,43 @@ EXTRA_TARGETS = ["Model/Canon.vo", "Model/C08Step.vo"]
 NB = msggen.NBUILTIN
 
 TRUSTED = [
-    "Coq 8.16.1 kernel and vm_compute (no native_compute); full .vo build via coq_makefile",
+    "Coq 8.16.1 kernel and vm_compute (no native_compute); full .vo build via coq_makefile; axioms: none (all 15 theorems of Properties/C08.v "
+    "are 'Closed under the global context')",
     "hand-written model coq/Model/{Object,Eq,Float,Utf8,TimeCore,Encode,Decode}.v (shared codec model) and coq/Model/C08Step.v "
-    "(load taken apart into step/loopV — proved equal to Decode.load by conversion —, the record grammar `records`, `drop_fields`), "
-    "tied to /repo by executable correspondence (this harness): parse / enc_obj of the OLDER schema, computed in Coq by drop_fields "
-    "from the newer schema literal, are evaluated by vm_compute on the same byte strings the real older classes parsed",
+    "(load taken apart into step / decode_value / store / loopV — proved equal to Decode.load by conversion, Proofs/C08StepP.v load_unfold —, "
+    "the record grammar `records` over the model's frame reader, `drop_fields`, the decidable side condition `split_free`), "
+    "tied to /repo by executable correspondence (this harness): parse / enc_obj / parse_into of the OLDER schema, which the model computes with "
+    "drop_fields from the newer schema literal, are evaluated by vm_compute on the same byte strings the real older classes (built through the "
+    "public field API from the reduced field lists) parsed; unknown_raw / known_raw / split_free / the number of records are evaluated in Coq and "
+    "compared with the independent record reader of this file",
+    "coq/Spec/C08Wire.v + Spec/Varint.v: the wire-format record grammar written without any decoder function; Proofs/C08WireP.v proves that the "
+    "model's `records` accepts everything that grammar generates (same numbers, wire types, byte extents)",
     "translator harness/gen_tables.py (type tables, wire-type tables, _pack_fmt, wrapper and Timestamp/Duration layouts reflected into coq/gen/Tables.v)",
     "Python side: harness/msggen.py (schemas through the public field API, value generators, raw-state snapshots), harness/wiregen.py "
-    "(independent record reader/writer) and the record-span reader of this file (used by the oracle to say which bytes are 'unknown records')",
+    "(independent record reader/writer) and the record-span reader / fits() table of this file (the oracle's definition of 'unknown record')",
     "float32 rounding (Model/Float.v d2f/f2d) is validated by correspondence, not proved",
     "reference: google.protobuf (upb) FromString on the original and on the re-emitted bytes (T3), flat classes only",
 ]
 ASSUMPTIONS = [
     "Python int is Z; str is its UTF-8 bytes (no lone surrogates); float is its binary64 pattern; aware datetimes are microseconds since the epoch; "
-    "object identity is not modelled (values are trees)",
-    "C08_evolution is stated in a Section under two INSTANCES of the C01 round trip (another property): parse(enc m) == m on the newer schema and "
-    "enc(parse(enc m')) = enc m' on the older schema for the projection m' of m; both instances are sampled by this oracle on every generated message; "
-    "the unconditional parts (raw_preserved, known_undisturbed, reemit, unknown records commute with known ones) carry no such hypothesis",
-    "CPython's recursion limit is not modelled",
+    "object identity is not modelled (values are trees); CPython's recursion limit is not modelled",
+    "C08_evolution_bytes / C08_evolution_partial take as PREMISES what belongs to the round-trip property C01 (owned by another check): "
+    "(C01-new) parse sn c (enc sn m) = Ok m1 with m1 == m; (C01-old) the older writer reproduces the bytes of the fields it knows "
+    "(enc so (clear_unk mo) = known_raw ...), or, weaker, the newer reader sees the same object in them; further premises: the older reader and "
+    "writer do not raise on these bytes, field numbers of the class are unique, and split_free (no oneof group has a deleted and a kept member both "
+    "present among the records — C08_split_oneof_refuted shows it is needed). Every premise is evaluated on every generated case "
+    "(input_distribution: premise_*, roundtrip_instance_*, split_oneof_inputs); the conclusions are checked on the implementation by the oracle "
+    "whether or not the premises hold",
+    "the unconditional theorems (parse_is_fold, records_*, spec_records, raw_preserved[_into|_spec], known_undisturbed[_conv|_spec], reemit, "
+    "unknown_commutes, records_commute) carry no hypothesis on schema, bytes or object",
 ]
-RULE = ("(newer, older) schema pairs: the systematic kind x cardinality schema and random schemas, older = random subset of EVERY class's fields "
-        "deleted (probabilities 0.2/0.5/0.8, all, none; oneof groups split); values from msggen (boundary/typical, containers 0..5, nested); byte strings "
-        "= bytes(m), bytes(m) with records unknown to both schemas (varint/fixed64/length-delimited/fixed32/group, padded varints) inserted at every gap, "
-        "alternative encodings (wiregen.reencode), known numbers with a non-fitting wire type, groups on known numbers. "
-        "non-trivial = the older class sees at least one unknown record; distinct = distinct (pair, class, bytes)")
+RULE = ("(newer, older) schema pairs: a fixed corpus pair, the systematic kind x cardinality schema and random schemas; older = random subset of EVERY "
+        "class's fields deleted (probabilities 0.2/0.5/0.8, all, none; oneof groups split; nested classes lose fields too); values from msggen "
+        "(boundary/typical, containers 0..5, nested); byte strings = bytes(m); bytes(m) with records unknown to both schemas "
+        "(varint/fixed64/length-delimited/fixed32/group, padded varints) inserted at every gap (front/middle/end/alone, several at once); alternative "
+        "encodings (wiregen.reencode: permuted, padded, packed split/unpacked, duplicated); known numbers with a non-fitting wire type and groups on "
+        "known numbers; a quarter of the cases additionally parse into an object that already holds unknown bytes; hand-written regression corpus "
+        "first. non-trivial = the older class sees at least one unknown record; distinct = distinct (pair, class, bytes)")
 
 VARINT_T = {"enum", "bool", "int32", "int64", "uint32", "uint64", "sint32", "sint64"}
 F32_T = {"float", "fixed32", "sfixed32"}
@@ -320,19 +333,10 @@ def corpus_pair():
     return newer_s, older_s, masks
 
 
-class Case:
-    __slots__ = ("pi", "ci", "kind", "bs", "inserted", "m", "m_ok", "src")
-
-    def __init__(self, pi, ci, kind, bs, inserted, m, m_ok, src="gen"):
-        self.pi, self.ci, self.kind, self.bs, self.inserted, self.m, self.m_ok, self.src = pi, ci, kind, bs, inserted, m, m_ok, src
-
-
-def run(ctx):
-    import time
+def build_pairs(ctx):
+    """the (newer, older, masks, label) pairs of a run: a deterministic function of (seed, tier)"""
     rng = ctx.rng
-    t0 = time.time()
-    phases = ctx.cov.setdefault("phase_seconds", {})
-    pairs_s = []  # (newer, older, masks, label)
+    pairs_s = []
 
     def add_pair(newer, p_del, label):
         older, masks = make_older(newer, rng, p_del)
@@ -345,6 +349,23 @@ def run(ctx):
         add_pair(matrix, p_del, label)
     for k in range(6 if not ctx.thorough else 50):
         add_pair(msggen.random_schema(rng), rng.choice([0.2, 0.5, 0.5, 0.8]), f"random{k}")
+    return pairs_s
+
+
+class Case:
+    __slots__ = ("pi", "ci", "kind", "bs", "inserted", "m", "m_ok", "src", "pre")
+
+    def __init__(self, pi, ci, kind, bs, inserted, m, m_ok, src="gen", pre=None):
+        self.pi, self.ci, self.kind, self.bs, self.inserted, self.m, self.m_ok, self.src = pi, ci, kind, bs, inserted, m, m_ok, src
+        self.pre = pre  # bytes parsed into the SAME older object before bs (m.parse(pre); m.parse(bs)), or None
+
+
+def run(ctx):
+    import time
+    rng = ctx.rng
+    t0 = time.time()
+    phases = ctx.cov.setdefault("phase_seconds", {})
+    pairs_s = build_pairs(ctx)
     for newer, older, masks, label in pairs_s:
         ctx.count("pairs")
         split = 0
@@ -373,7 +394,8 @@ def run(ctx):
     for rc in load_corpus():
         ci = 1
         bs = bytes.fromhex(rc["bytes"])
-        cases.append(Case(0, ci, "corpus:" + rc["name"], bs, None, None, False, src="corpus"))
+        cases.append(Case(0, ci, "corpus:" + rc["name"], bs, None, None, False, src="corpus",
+                          pre=bytes.fromhex(rc["pre"]) if rc.get("pre") else None))
         ctx.count("corpus_cases")
     # ---- generated
     n_msgs = {"corpus": 12, "matrix-0.5": 70, "matrix-0.2": 25, "matrix-0.8": 25, "matrix-all": 12, "matrix-none": 8}
@@ -394,7 +416,13 @@ def run(ctx):
                 continue
             ctx.count("messages")
             for kind, bs, inserted in variants(ctx, newer.classes[ci], b1, rng, budget=3):
-                cases.append(Case(pi, ci, kind, bs, inserted, m, True))
+                pre = None
+                if rng.random() < 0.25:
+                    # an existing message that already holds unknown bytes (and possibly known fields) parses bs as well
+                    pre = gen_unknown_padded(rng, {f.number for f in newer.classes[ci].fields}, n=rng.randint(1, 2))
+                    if rng.random() < 0.4:
+                        pre = b1 + pre
+                cases.append(Case(pi, ci, kind, bs, inserted, m, True, pre=pre))
 
     phases["generate"] = round(time.time() - t0, 1)
     t0 = time.time()
@@ -438,8 +466,10 @@ def run(ctx):
 
 
 def describe(case, newer, older, masks):
-    d = {"pair": case.pi, "newer_schema": newer.describe(), "older_schema": older.describe(), "class": newer.classes[case.ci].name,
-         "kind": case.kind, "bytes": case.bs.hex()}
+    d = {"pair": case.pi, "class_index": case.ci, "newer_schema": newer.describe(), "older_schema": older.describe(),
+         "class": newer.classes[case.ci].name, "kind": case.kind, "bytes": case.bs.hex(),
+         "pre": case.pre.hex() if case.pre is not None else None,
+         "replay_needs": "the same VERIF_SEED and VERIF_TIER as the run that wrote this file (the schema pair is regenerated from them)"}
     if case.m is not None:
         d["repr"] = repr(case.m)[:2000]
     return d
@@ -516,6 +546,24 @@ def one_case(ctx, case, newer, older, pairs, meta):
         exp.append(cl([cb(unk_b), cb(known_b), lib.cbool(sf), lib.cz(len(record_spans(bs)))]))
     else:
         exp.append("CN")
+    # m.parse(pre) followed by m.parse(bs) on the same object (C08_raw_preserved_into)
+    mi = None
+    pre_ok = False
+    if case.pre is not None:
+        ctx.count("parse_into_existing_cases")
+        try:
+            mi = O().parse(case.pre)
+            pre_ok = True
+            mi.parse(bs)
+            exp.append(f"(cv_of_obj {msggen.obj_literal(older, mi)})")
+            st_mi = raw_state(mi)
+        except msggen.Unmodellable:
+            raise
+        except Exception:
+            exp.append(ce("EOther"))
+            mi = None
+    else:
+        exp.append("CN")
     lit = lib.coq_bytes(bs)
     model = ("(let bs := " + lit + " in CL [cv_obj_res (parse scO%d %d%%nat bs); "
              "cv_bytes_res (do mo <- parse scO%d %d%%nat bs; enc_obj scO%d mo); "
@@ -524,7 +572,9 @@ def one_case(ctx, case, newer, older, pairs, meta):
     model += (f"cv_obj_res (parse scO{pi} {c}%nat {lib.coq_bytes(known_b)}); " if framed else "CN; ")
     model += (f"match frames (S (length bs)) bs with Some ps => CL [CB (unknown_raw (get_class scO{pi} {c}%nat) ps); "
               f"CB (known_raw (get_class scO{pi} {c}%nat) ps); cbool (split_free (get_class scN{pi} {c}%nat) (get_class scO{pi} {c}%nat) ps); "
-              f"CZ (Zlength ps)] | None => CN end])")
+              f"CZ (Zlength ps)] | None => CN end; ")
+    model += (f"cv_obj_res (do m0 <- parse scO{pi} {c}%nat {lib.coq_bytes(case.pre)}; parse_into scO{pi} m0 bs)])"
+              if case.pre is not None else "CN])")
     pairs.append((model, cl(exp)))
     meta.append(case)
 
@@ -544,6 +594,21 @@ def one_case(ctx, case, newer, older, pairs, meta):
             fail("Older().parse(bs) raises but parsing bs without its unknown records succeeds: an unknown record disturbed decoding")
         ctx.count("older_parse_error")
         return
+    # parsing into an existing message: earlier unknown bytes stay in front, the result is that of parsing pre ++ bs
+    if case.pre is not None and pre_ok:
+        try:
+            _, unk_pre, _ = split_unknown(ocls, case.pre)
+            if mi is None:
+                fail("m.parse(pre); m.parse(bs) raises although Older().parse(bs) works")
+            else:
+                if unk_of(mi) != unk_pre + unk_b:
+                    fail(f"after m.parse(pre); m.parse(bs) _unknown_fields is {unk_of(mi).hex()}, expected the unknown records of pre then of bs "
+                         f"{(unk_pre + unk_b).hex()}")
+                whole = O().parse(case.pre + bs)
+                if raw_state(whole) != st_mi:
+                    fail("m.parse(pre); m.parse(bs) differs from parsing pre ++ bs in one go")
+        except wiregen.WireError:
+            pass
     # raw preserved
     if unk_of(mo) != unk_b:
         fail(f"_unknown_fields after Older().parse(bs) is {unk_of(mo).hex()}, the unknown records of bs are {unk_b.hex()}")
@@ -783,5 +848,24 @@ def finish(ctx):
 
 
 def replay(ctx, obj):
-    print(json.dumps(obj, indent=1, default=repr)[:6000])
-    return 0
+    """re-run the oracle on the recorded input against the current tree (same VERIF_SEED / VERIF_TIER as the recording run)"""
+    print(json.dumps({k: v for k, v in obj.items() if k != "input"}, indent=1, default=repr)[:3000])
+    inp = obj.get("input") or {}
+    if "bytes" not in inp or "pair" not in inp:
+        print(json.dumps(inp, indent=1, default=repr)[:6000])
+        return 0
+    pairs_s = build_pairs(ctx)
+    newer, older, masks, label = pairs_s[inp["pair"]]
+    case = Case(inp["pair"], inp["class_index"], inp.get("kind", "replay"), bytes.fromhex(inp["bytes"]), None, None, False, src="replay",
+                pre=bytes.fromhex(inp["pre"]) if inp.get("pre") else None)
+    if newer.classes[case.ci].name != inp.get("class"):
+        print("the schema pair regenerated from this seed/tier does not match the recording; set VERIF_SEED / VERIF_TIER as recorded")
+        return 2
+    pairs, meta = [], []
+    one_case(ctx, case, newer, older, pairs, meta)
+    for f in ctx.failures:
+        print("STILL FAILS:", f["what"])
+    if not ctx.failures:
+        print("the oracle holds on this input now; model expression for the correspondence:")
+        print(pairs[0][0][:3000] if pairs else "")
+    return 1 if ctx.failures else 0
